@@ -37,12 +37,18 @@ type schedCfg struct {
 	viaConfig bool
 	// names: the names given to the top-level STAGES (nil: their index); tasks keep the index as their name
 	names []string
+	// plainNames (nested graphs): the stages are called "0", "1", ... like the stages of the enclosing pipeline
+	// (stage names are unique within one pipeline only)
+	plainNames bool
 }
 
 // disp is the stage name handed to the implementation for stage i of the (sub)graph with the given prefix
 func (c *schedCfg) disp(prefix string, i int) string {
 	if prefix == "" && c.names != nil {
 		return c.names[i]
+	}
+	if prefix != "" && c.plainNames {
+		return strconv.Itoa(i)
 	}
 	return fmt.Sprintf("%s%d", prefix, i)
 }
